@@ -2336,3 +2336,127 @@ Proof.
   constructor; [apply exec_meta_lk; auto|].
   eapply Forall2_map2; [|exact F]. intros x y Hxy. apply write_change_lk; auto.
 Qed.
+
+(* ================================================================================================ *)
+(* C19_eq_bytes_partial — part 3: for strict trees, == implies "the writer cannot tell them apart"    *)
+(* ================================================================================================ *)
+(* option values among None / int / str / bytes: no bool (True == 1), no dict, no foreign object *)
+Definition wv_strict (v : wv) : bool := match v with WNone | WInt _ | WStr _ | WBytes _ => true | _ => false end.
+Definition opts_strict (o : dopts) : bool := keys_unique o && forallb (fun p => wv_strict (snd p)) o.
+Definition file_remap_ok (f : dfile) : bool := remap_unique "meta" (m_opts (f_meta f)) && remap_unique "diff" (x_opts (f_diff f)).
+Definition change_remap_ok (c : dchange) : bool := remap_unique "meta" (m_opts (c_meta c)) && forallb file_remap_ok (c_files c).
+Definition tree_remap_ok (t : dtree) : bool := remap_unique "meta" (m_opts (d_meta t)) && forallb change_remap_ok (d_changes t).
+(* clean_strict: every dict has unique keys; no boolean, unserialisable or foreign value anywhere in options or
+   metadata; no meta/diff options dict holds both a key and the name the DOM writer renames it to *)
+Definition tree_strict (t : dtree) : bool :=
+  tree_all opts_strict (fun m => json_strict (JObj m)) t && tree_remap_ok t.
+
+Lemma wv_eq_strict : forall v w, wv_strict v = true -> wv_strict w = true -> wv_eq v w = true -> v = w.
+Proof.
+  intros v w; destruct v, w; cbn; intros SV SW E; try discriminate; auto.
+  - apply Z.eqb_eq in E. congruence.
+  - apply teq_eq in E. congruence.
+  - apply beq_eq in E. congruence.
+Qed.
+Lemma dopts_eq_lk : forall a b, opts_strict a = true -> opts_strict b = true -> dopts_eq a b = true -> dopts_lk a b.
+Proof.
+  intros a b SA SB E. unfold opts_strict in *. apply andb_true_iff in SA as [UA VA]. apply andb_true_iff in SB as [UB VB].
+  apply dopts_eq_iff in E; auto. destruct E as [KS PW]. rewrite forallb_forall in VA, VB.
+  apply keys_unique_NoDup in UA, UB. intro k.
+  destruct (assoc_get beq k a) as [v|] eqn:EA.
+  - destruct (key_aget_some beq beq_eq k b) as [w EB]. { apply KS. eapply aget_some_key; eauto. exact beq_eq. }
+    rewrite EB. f_equal. apply wv_eq_strict; [| |eapply PW; eauto].
+    + apply (aget_In beq beq_eq) in EA. apply (VA (k, v)); auto.
+    + apply (aget_In beq beq_eq) in EB. apply (VB (k, w)); auto.
+  - destruct (assoc_get beq k b) as [w|] eqn:EB; auto.
+    apply (aget_None_notin beq beq_eq) in EA. exfalso. apply EA. apply KS. eapply aget_some_key; eauto. exact beq_eq.
+Qed.
+Lemma meta_eq_dump : forall x y, json_strict (JObj x) = true -> json_strict (JObj y) = true ->
+  json_eq (JObj x) (JObj y) = true -> meta_dump_eq x y.
+Proof.
+  intros x y SX SY E. split.
+  - rewrite json_eq_obj in E. unfold dict_eqb in E. apply andb_true_iff in E as [E _]. apply Nat.eqb_eq in E.
+    destruct x, y; cbn in *; auto; discriminate.
+  - unfold json_dump. apply json_dump_eq_invariant; auto.
+Qed.
+Lemma msec_eq_lk : forall a b, opts_strict (m_opts a) = true -> opts_strict (m_opts b) = true ->
+  json_strict (JObj (m_content a)) = true -> json_strict (JObj (m_content b)) = true ->
+  remap_unique "meta" (m_opts a) = true -> remap_unique "meta" (m_opts b) = true ->
+  msec_eq a b = true -> msec_lk a b.
+Proof.
+  intros a b OA OB JA JB RA RB E. unfold msec_eq in E. apply andb_true_iff in E as [E1 E2].
+  repeat split; auto. apply dopts_eq_lk; auto. apply meta_eq_dump; auto. apply meta_eq_dump; auto.
+Qed.
+
+Lemma file_eq_lk : forall a b,
+  file_all opts_strict (fun m => json_strict (JObj m)) a = true -> file_remap_ok a = true ->
+  file_all opts_strict (fun m => json_strict (JObj m)) b = true -> file_remap_ok b = true ->
+  file_eq a b = true -> file_lk a b.
+Proof.
+  intros a b SA RA SB RB E. unfold file_all, file_remap_ok, file_eq in *. bsplit SA. bsplit SB. bsplit RA. bsplit RB. bsplit E.
+  split; [apply dopts_eq_lk; auto|]. split; [apply msec_eq_lk; auto|].
+  unfold dsec_eq in E0. apply andb_true_iff in E0 as [D1 D2]. apply opt_bytes_eq_iff in D2.
+  repeat split; auto. apply dopts_eq_lk; auto.
+Qed.
+Lemma files_eq_lk : forall l l',
+  forallb (file_all opts_strict (fun m => json_strict (JObj m))) l = true -> forallb file_remap_ok l = true ->
+  forallb (file_all opts_strict (fun m => json_strict (JObj m))) l' = true -> forallb file_remap_ok l' = true ->
+  list_eq2 file_eq l l' = true -> Forall2 file_lk l l'.
+Proof.
+  induction l as [|x l IH]; destruct l' as [|y l']; cbn; intros S1 R1 S2 R2 E; try discriminate; constructor.
+  - bsplit S1. bsplit R1. bsplit S2. bsplit R2. bsplit E. apply file_eq_lk; auto.
+  - bsplit S1. bsplit R1. bsplit S2. bsplit R2. bsplit E. apply IH; auto.
+Qed.
+Lemma psec_eq_lk : forall a b, opts_strict (p_opts a) = true -> opts_strict (p_opts b) = true -> psec_eq a b = true -> psec_lk a b.
+Proof.
+  intros a b OA OB E. unfold psec_eq in E. apply andb_true_iff in E as [E1 E2]. apply opt_text_eq_iff in E2.
+  split; auto. apply dopts_eq_lk; auto.
+Qed.
+Lemma change_eq_lk : forall a b,
+  change_all opts_strict (fun m => json_strict (JObj m)) a = true -> change_remap_ok a = true ->
+  change_all opts_strict (fun m => json_strict (JObj m)) b = true -> change_remap_ok b = true ->
+  change_eq a b = true -> change_lk a b.
+Proof.
+  intros a b SA RA SB RB E. unfold change_all, change_remap_ok, change_eq in *. bsplit SA. bsplit SB. bsplit RA. bsplit RB. bsplit E.
+  split; [apply dopts_eq_lk; auto|]. split; [apply psec_eq_lk; auto|]. split; [apply msec_eq_lk; auto|].
+  apply files_eq_lk; auto.
+Qed.
+Lemma changes_eq_lk : forall l l',
+  forallb (change_all opts_strict (fun m => json_strict (JObj m))) l = true -> forallb change_remap_ok l = true ->
+  forallb (change_all opts_strict (fun m => json_strict (JObj m))) l' = true -> forallb change_remap_ok l' = true ->
+  list_eq2 change_eq l l' = true -> Forall2 change_lk l l'.
+Proof.
+  induction l as [|x l IH]; destruct l' as [|y l']; cbn; intros S1 R1 S2 R2 E; try discriminate; constructor.
+  - bsplit S1. bsplit R1. bsplit S2. bsplit R2. bsplit E. apply change_eq_lk; auto.
+  - bsplit S1. bsplit R1. bsplit S2. bsplit R2. bsplit E. apply IH; auto.
+Qed.
+Theorem tree_eq_lk : forall a b, tree_strict a = true -> tree_strict b = true -> tree_eq a b = true -> tree_lk a b.
+Proof.
+  intros a b SA SB E. unfold tree_strict in *. apply andb_true_iff in SA as [SA RA]. apply andb_true_iff in SB as [SB RB].
+  unfold tree_all, tree_remap_ok, tree_eq in *. bsplit SA. bsplit SB. bsplit RA. bsplit RB. bsplit E.
+  split; [apply dopts_eq_lk; auto|]. split; [apply psec_eq_lk; auto|]. split; [apply msec_eq_lk; auto|].
+  apply changes_eq_lk; auto.
+Qed.
+
+(* equal trees serialise to identical bytes — when no boolean / foreign value sits in options or metadata and no
+   options dict collides under the writer's renaming.
+   PARTIAL with respect to the property text, which claims it for all trees: that is refuted three ways
+   (C19_eq_bytes_refuted: True == 1 in metadata; C19_eq_bytes_refuted_option: the same in an option;
+    C19_eq_bytes_refuted_order: the order of raw option keys 'type' / 'diff_type').  Nothing else is missing: the
+   hypothesis is exactly the negation of those three situations (plus unique dict keys, which Python guarantees). *)
+Theorem C19_eq_bytes_partial : forall a b, tree_strict a = true -> tree_strict b = true ->
+  tree_eq a b = true -> dom_write a = dom_write b.
+Proof. intros. apply dom_write_lk. apply tree_eq_lk; auto. Qed.
+
+(* ex_tree with the keys of one metadata dict, of its nested stats dict and of the root options in another order *)
+Definition ex_tree_perm : dtree :=
+  {| d_opts := [(B "version", WStr (ascii_text GenText.writer_version)); (B "encoding", WStr (ascii_text GenText.default_encoding))];
+     d_pre := new_psec; d_meta := new_msec;
+     d_changes :=
+       [ {| c_opts := []; c_pre := new_psec; c_meta := new_msec;
+            c_files := [ {| f_opts := [];
+                            f_meta := {| m_opts := m_opts new_msec;
+                                         m_content := [(skey "stats", JObj [(skey "insertions", JInt 99); (skey "custom", JInt 7)]);
+                                                       (skey "path", JStr (skey "a"))] |};
+                            f_diff := f_diff ex_file1 |};
+                         ex_file2 ] |} ] |}.
